@@ -138,12 +138,24 @@ def _build_condition(
     # is_null / is_not_null for that. A NULL in the value set therefore matches
     # nothing and is dropped, and every result is explicitly restricted to
     # non-null rows.
+    def _membership(values: List[Any]) -> pc.Expression:
+        # is_in matches by hash, under which 0.0 and -0.0 are different values
+        # although they are equal (and `==` treats them as equal): a zero in
+        # the value set must match a zero of either sign.
+        member = pc.is_in(field, value_set=pa.array(values))
+        if any(
+            isinstance(v, (int, float)) and not isinstance(v, bool) and v == 0
+            for v in values
+        ):
+            member = member | (field == 0)
+        return member
+
     def _in_condition() -> pc.Expression:
         values = [v for v in expr.value if v is not None]
         if not values:
             # IN () matches nothing (SQL semantics)
             return pc.scalar(False)
-        return pc.is_in(field, value_set=pa.array(values)) & field.is_valid()
+        return _membership(values) & field.is_valid()
 
     def _not_in_condition() -> pc.Expression:
         values = [v for v in expr.value if v is not None]
@@ -152,7 +164,7 @@ def _build_condition(
             return field.is_valid()
         # `~pc.is_in(...)` alone KEEPS null rows (is_in returns false for them),
         # which contradicts the documented contract - hence the is_valid() guard.
-        return (~pc.is_in(field, value_set=pa.array(values))) & field.is_valid()
+        return (~_membership(values)) & field.is_valid()
 
     op_handlers: Dict[FilterOp, Any] = {
         FilterOp.EQ: lambda: field == expr.value,
